@@ -233,3 +233,58 @@ contract(
     inline=CL_INLINE,
     modifies=CHAN_MOD,
 )
+
+
+# ---------------------------------------------------------------------------
+# local disconnect: the future the caller waits on is the one every close path completes
+# ---------------------------------------------------------------------------
+def new_future(ghost):
+    return pool_new(ghost.futs, None, st=PENDING)
+
+
+model('ghost:Loop#c09', fields={}, methods={'create_future': Callback('create_future', effect=new_future)})
+LOOP_STUBS = {asyncio.get_running_loop: Callback('get_running_loop', effect=lambda ghost: ghost.loop)}
+HEAP_LOOP = dict(HEAP, loop=Inst('ghost:Loop#c09'))
+NEXT_ID = 'bumble.l2cap:ChannelManager.next_identifier'
+
+
+def waiting_on(self, fut, old, ghost, state):
+    """at the await: the request is out, the channel is in `state`, and the awaited future is the pending future stored
+    in disconnection_result -- which abort(), on_disconnection_request() and on_disconnection_response() complete"""
+    return [
+        self.state == state,
+        fut is not None and same(self.disconnection_result, fut),
+        fut.st == PENDING if fut is not None else False,
+        ghost.frames == old.ghost.frames + 1,
+        # the tables are not touched by a local disconnect (the channel stays registered until the peer answers)
+        pool_same_except(ghost.cdicts, old.ghost.cdicts, []),
+        pool_same_except(ghost.chans, old.ghost.chans, [self]),
+    ]
+
+
+contract(
+    'bumble.l2cap:LeCreditBasedChannel.disconnect',
+    prop='C09',
+    params=dict(self=CHAN),
+    ghost=HEAP_LOOP,
+    requires=lambda self: [is_le(self)] + futs_ok(self),
+    raises={core.InvalidStateError: lambda self, old, ghost: [old.self.state != LE_CONNECTED, pool_same_except(ghost.chans, old.ghost.chans, []), ghost.frames == old.ghost.frames]},
+    await_inv=lambda self, disconnection_result, old, ghost: waiting_on(self, disconnection_result, old, ghost, LE_DISCONNECTING) + [self.drained.is_set()],
+    uses=[NEXT_ID],
+    inline=LE_INLINE,
+    stubs=LOOP_STUBS,
+    modifies=CHAN_MOD,
+)
+contract(
+    'bumble.l2cap:ClassicChannel.disconnect',
+    prop='C09',
+    params=dict(self=CHAN),
+    ghost=HEAP_LOOP,
+    requires=lambda self: [not is_le(self)] + futs_ok(self),
+    raises={core.InvalidStateError: lambda self, old, ghost: [old.self.state != CL_OPEN, pool_same_except(ghost.chans, old.ghost.chans, []), ghost.frames == old.ghost.frames]},
+    await_inv=lambda self, old, ghost: waiting_on(self, self.disconnection_result, old, ghost, CL_WAIT_DISCONNECT),
+    uses=[NEXT_ID],
+    inline=CL_INLINE + ['ClassicChannel._disconnect_sync'],
+    stubs=LOOP_STUBS,
+    modifies=CHAN_MOD,
+)
